@@ -360,7 +360,7 @@ Definition decode_sock (l : list N) : option (N * list (N * N * N)) :=
 
 Definition run_sock (body : list N) : list N :=
   match decode_sock body with
-  | Some (_, cs) => 1 :: flat_map (fun x : N * N * N => sock_expect (fst (fst x)) (snd (fst x)) (snd x)) cs
+  | Some (_, cs) => 1 :: flat_map (fun x : N * N * N => sock_expect (fst (fst x)) (snd (fst x)) (snd x)) cs ++ [0]
   | None => [0]
   end.
 
@@ -394,8 +394,9 @@ Definition prop_ok_sock (body trace : list N) : bool :=
   | Some (_, cs) =>
       match trace with
       | 1 :: rest =>
-          match pall (prep (length cs) p_sock_obs) rest with
-          | Some os => sock_ok cs os
+          (* the last number: accepted connections that were seen closing by the end of the case *)
+          match pall (let* os := prep (length cs) p_sock_obs in let* disturbed := pN in pret (os, disturbed)) rest with
+          | Some (os, disturbed) => sock_ok cs os && (disturbed =? 0)
           | None => false
           end
       | _ => false
